@@ -165,7 +165,7 @@ class FlipMVD(ADEVPrimitive):
         dual_tree: DualTree,
         konts: tuple[Any, ...],
     ):
-        (kpure, kdual) = konts
+        (_, kdual) = konts
         (p_primal,) = Dual.tree_primal(dual_tree)
         (p_tangent,) = Dual.tree_tangent(dual_tree)
         key, sub_key = jax.random.split(key)
@@ -173,7 +173,10 @@ class FlipMVD(ADEVPrimitive):
         b = v == 1
         b_dual = kdual(key, Dual(b, jnp.zeros_like(b)))
         (b_primal,), (b_tangent,) = Dual.tree_unzip(b_dual)
-        (other,) = kpure(key, jnp.logical_not(b))
+        # The pure continuation skips later sample sites and add_cost: evaluate
+        # the other outcome with the dual continuation (same key) and keep its primal.
+        nb = jnp.logical_not(b)
+        (other,), _ = Dual.tree_unzip(kdual(key, Dual(nb, jnp.zeros_like(nb))))
         est = ((-1) ** v) * (other - b_primal)
         return Dual(b_primal, b_tangent + est * p_tangent)
 
